@@ -112,6 +112,9 @@ def run(rep):
              'registered()/subscribed() read through _find_leaf', floor=6)
     rep.rule('R09.7', 'every storage write is followed by changed() (lookups '
              'see the new bookkeeping)', floor=8)
+    rep.rule('R09.8', 'no re-entrant mutation: register/unregister/subscribe/'
+             'unsubscribe call no other writer of the registration storage '
+             '(their local container references would dangle)', floor=4)
     rep.decline('that replaying allRegistrations()/allSubscriptions() or '
                 'rebuild() yields an equivalent registry for every history')
 
@@ -148,6 +151,7 @@ def run(rep):
               construct='same-value', node=reg)
     from . import mutators, sem
     mutators.value_filter(rep, 'R09.1', mod)
+    mutators.no_reentry(rep, 'R09.8', mod)
     sd = find_def(mod, 'BaseAdapterRegistry.subscribed')
     probs = []
     hit = 0
